@@ -1068,6 +1068,40 @@ class Evaluator:
             nm = fn.split("::")[-1]
             if nm in ("unwrap", "expect") and n["args"]:
                 return self._string_effects(tb, n["args"][0], env, depth)
+            # a local helper that gets a tracked string as `&mut` out-parameter (statement position, result unused): its
+            # body is applied with the parameter standing for the caller's string
+            tgt_ = n.get("res") or n.get("fn")
+            if tgt_ in self.f.fns and depth < self.max_depth and self.tb(tgt_) is not None:
+                tbc = self.tb(tgt_)
+                outs, envc, ok_ = [], {}, len(tbc.params) == len(n["args"])
+                for p_, a_ in zip(tbc.params, n["args"]) if ok_ else ():
+                    ai, an = tb.e(a_)
+                    vi, vn = ai, an
+                    while vn["k"] in ("Borrow", "Deref"):
+                        vi, vn = tb.e(vn["e"])
+                    pat = p_.get("pat") or {}
+                    if an["k"] == "Borrow" and an.get("mut") and vn["k"] in ("Var", "Upvar") and isinstance(env.get(vn["id"]), Str):
+                        if pat.get("k") != "Bind":
+                            ok_ = False
+                            break
+                        envc[pat["id"]] = env[vn["id"]]
+                        outs.append((vn["id"], pat["id"]))
+                    else:
+                        try:
+                            self.bind(pat, self.eval(tb, a_, env, depth), envc)
+                        except Unsupported:
+                            ok_ = False
+                            break
+                if ok_ and outs:
+                    try:
+                        done = self._string_effects(tbc, tbc.root, envc, depth + 1)
+                    except Unsupported:
+                        done = False
+                    if done:
+                        for vid, pid in outs:
+                            env[vid] = envc[pid]
+                        return True
+                    return False
             if nm in self._STR_MUT and n["args"]:
                 ri, rn = tb.e(n["args"][0])
                 while rn["k"] in ("Borrow", "Deref"):
